@@ -190,7 +190,7 @@ def _min_error_primal(
     # # cvxopt
     # dms = [state / np.trace(state) for state in dms]
     objective = picos.sum([(picos.trace(probs[i] * dms[i] * measurements[i])) for i in range(n)])
-    problem.set_objective("min", objective)
+    problem.set_objective("min", np.real(objective))
     solution = problem.solve(solver=solver, **kwargs)
     return solution.value, measurements
 
